@@ -80,43 +80,73 @@ Definition replay_event (r : rp) (e : val) : rp :=
 
 (* ---- oracles over the executed trace alone (no model state): the outcome clauses of C10 / C11 ---- *)
 Record tr := { t_acc : bytes; t_del : bytes; t_abort : bool; t_alive : bool; t_term : option bool (* true = clean end *);
-               t_fail : list string }.
+               t_fail : list string;
+               t_dropped : bool;              (* the body has been dropped (event [4] seen) *)
+               t_cur : option (N * bool);     (* operation whose events have begun, and whether the body was already dropped then *)
+               t_buf : N                      (* bytes accepted but not yet handed over (the writer's buffer) *) }.
+Definition tr_set (t : tr) (acc del : bytes) (abort alive : bool) (term : option bool) : tr :=
+  {| t_acc := acc; t_del := del; t_abort := abort; t_alive := alive; t_term := term; t_fail := t_fail t;
+     t_dropped := t_dropped t; t_cur := t_cur t; t_buf := t_buf t |}.
 Definition tr_fail (t : tr) (c : string) : tr :=
   {| t_acc := t_acc t; t_del := t_del t; t_abort := t_abort t; t_alive := t_alive t; t_term := t_term t;
-     t_fail := if existsb (String.eqb c) (t_fail t) then t_fail t else t_fail t ++ [c] |}.
-Definition trace_event (prog : list cop) (t : tr) (e : val) : tr :=
+     t_fail := if existsb (String.eqb c) (t_fail t) then t_fail t else t_fail t ++ [c];
+     t_dropped := t_dropped t; t_cur := t_cur t; t_buf := t_buf t |}.
+Definition tr_aux (t : tr) (dropped : bool) (cur : option (N * bool)) (buf : N) : tr :=
+  {| t_acc := t_acc t; t_del := t_del t; t_abort := t_abort t; t_alive := t_alive t; t_term := t_term t; t_fail := t_fail t;
+     t_dropped := dropped; t_cur := cur; t_buf := buf |}.
+(* operation k begins (its first event): remember whether the body was already gone *)
+Definition tr_begin (t : tr) (k : N) : tr :=
+  match t_cur t with
+  | Some (k', _) => if k' =? k then t else tr_aux t (t_dropped t) (Some (k, t_dropped t)) (t_buf t)
+  | None => tr_aux t (t_dropped t) (Some (k, t_dropped t)) (t_buf t)
+  end.
+Definition began_after_drop (t : tr) : bool := match t_cur t with Some (_, b) => b | None => false end.
+Definition trace_event (cap : N) (prog : list cop) (t : tr) (e : val) : tr :=
   match e with
   | VL [VN 0; VN k] =>                       (* a critical section of operation k *)
+      let t := tr_begin t k in
       match nth_error prog (N.to_nat k) with
-      | Some OAbort => if t_alive t
-                       then {| t_acc := t_acc t; t_del := t_del t; t_abort := true; t_alive := false; t_term := t_term t; t_fail := t_fail t |}
-                       else t
+      | Some OAbort => if t_alive t then tr_set t (t_acc t) (t_del t) true false (t_term t) else t
       | _ => t
       end
   | VL [VN 2; VN k; res; VN _] =>
+      let t := tr_begin t k in
       match nth_error prog (N.to_nat k), res with
       | Some (OWrite d), VL [VN 0; VN n] =>
-          let t' := {| t_acc := t_acc t ++ firstn (N.to_nat n) d; t_del := t_del t; t_abort := t_abort t; t_alive := t_alive t;
-                       t_term := t_term t; t_fail := t_fail t |} in
-          if t_abort t && negb (n =? 0) then tr_fail t' "write-accepted-after-abort" else t'
-      | Some OFlush, VL [VN 2] => if t_abort t then tr_fail t "flush-succeeds-after-abort" else t
-      | Some ODropWriter, _ | Some OAbort, _ =>
-          {| t_acc := t_acc t; t_del := t_del t; t_abort := t_abort t; t_alive := false; t_term := t_term t; t_fail := t_fail t |}
+          let t' := tr_set t (t_acc t ++ firstn (N.to_nat n) d) (t_del t) (t_abort t) (t_alive t) (t_term t) in
+          let t' := if t_abort t && negb (n =? 0) then tr_fail t' "write-accepted-after-abort" else t' in
+          (* the whole operation ran after the body was dropped and it completed a chunk: it must have failed *)
+          let t' := if began_after_drop t && (0 <? cap) && (cap <=? t_buf t + n)
+                    then tr_fail t' "chunk-completing-write-succeeds-after-the-body-was-dropped" else t' in
+          tr_aux t' (t_dropped t') (t_cur t') (if cap <=? t_buf t + n then 0 else t_buf t + n)
+      | Some OFlush, VL [VN 2] =>
+          let t' := if t_abort t then tr_fail t "flush-succeeds-after-abort" else t in
+          let t' := if began_after_drop t && (0 <? t_buf t)
+                    then tr_fail t' "flush-of-buffered-bytes-succeeds-after-the-body-was-dropped" else t' in
+          tr_aux t' (t_dropped t') (t_cur t') 0
+      | Some ODropWriter, _ | Some OAbort, _ => tr_set t (t_acc t) (t_del t) (t_abort t) false (t_term t)
       | _, _ => t
       end
   | VL [VN 3; VN _; VB d] =>
-      let t' := {| t_acc := t_acc t; t_del := t_del t ++ d; t_abort := t_abort t; t_alive := t_alive t; t_term := t_term t; t_fail := t_fail t |} in
+      let t' := tr_set t (t_acc t) (t_del t ++ d) (t_abort t) (t_alive t) (t_term t) in
       match t_term t with Some _ => tr_fail t' "data-after-the-terminal-event" | None => t' end
   | VL [VN 3; VN _; VL [VN 5]] =>
-      let t' := {| t_acc := t_acc t; t_del := t_del t; t_abort := t_abort t; t_alive := t_alive t; t_term := Some true; t_fail := t_fail t |} in
+      let t' := tr_set t (t_acc t) (t_del t) (t_abort t) (t_alive t) (Some true) in
       if t_abort t then tr_fail t' "clean-end-after-abort" else t'
-  | VL [VN 3; VN _; VL [VN 6]] =>
-      {| t_acc := t_acc t; t_del := t_del t; t_abort := t_abort t; t_alive := t_alive t; t_term := Some false; t_fail := t_fail t |}
+  | VL [VN 3; VN _; VL [VN 6]] => tr_set t (t_acc t) (t_del t) (t_abort t) (t_alive t) (Some false)
+  | VL [VN 4] => tr_aux t true (t_cur t) (t_buf t)          (* the body has been dropped *)
   | _ => t
   end.
-Definition trace_clauses (prog : list cop) (trace : list val) : list string :=
-  let t := fold_left (trace_event prog) trace
-             {| t_acc := []; t_del := []; t_abort := false; t_alive := true; t_term := None; t_fail := [] |} in
+Fixpoint bytes_contains (needle hay : bytes) : bool :=
+  match hay with
+  | [] => match needle with [] => true | _ => false end
+  | _ :: t => starts_with needle hay || bytes_contains needle t
+  end.
+Definition contains_str (needle hay : string) : bool := bytes_contains (bs needle) (bs hay).
+Definition trace_clauses (cap : N) (prog : list cop) (trace : list val) : list string :=
+  let t := fold_left (trace_event cap prog) trace
+             {| t_acc := []; t_del := []; t_abort := false; t_alive := true; t_term := None; t_fail := [];
+                t_dropped := false; t_cur := None; t_buf := 0 |} in
   t_fail t
   ++ (if starts_with (t_del t) (t_acc t) then [] else ["delivered-bytes-are-not-a-prefix-of-the-accepted-bytes"%string])
   ++ match t_term t with
@@ -157,8 +187,9 @@ Definition run_sched (v : val) : val :=
               ++ (if stuck =? 0 then [] else [xclause "consumer-asleep-while-termination-pending"])
               ++ (if timeout =? 0 then [] else [xclause "thread-blocked-deadlock"])
               ++ (if wwl =? 0 then [] else [xclause "wake-while-holding-the-lock"])
-              ++ flat_map (fun c => [finding K_SPECFAIL (bs "C10:" ++ bs c) (VL []) (VL []);
-                                     finding K_SPECFAIL (bs "C11:" ++ bs c) (VL []) (VL [])]) (trace_clauses prog trace)
+              ++ flat_map (fun c => (* the disconnect clauses are C11's alone *)
+                                    (if contains_str "body-was-dropped" c then [] else [finding K_SPECFAIL (bs "C10:" ++ bs c) (VL []) (VL [])])
+                                    ++ [finding K_SPECFAIL (bs "C11:" ++ bs c) (VL []) (VL [])]) (trace_clauses cap prog trace)
               ++ (if (negb (stuck =? 0)) && existsb (fun o => match o with OAbort => true | _ => false end) prog
                   then [finding K_SPECFAIL (bs "C11:consumer-never-sees-the-abort-error") (VL []) (VL [])] else []))
       end
